@@ -100,6 +100,77 @@ def subtraj_profile(discrete=False):
     )
 
 
+# ------------------------------------------------------------------ spelled calls of add_sample
+VALUE_FORMS = ("float", "pyint", "npint", "npuint8", "jaxint")
+KEY_ORDERS = (0, 1, 2)  # 0: declared key order, 1: reversed, 2: fields of equal shape exchanged
+
+
+def key_order(keys, order, shapes=None):
+    """Keyword order `order` of the model (spec/Ring.tla Orders) for the declared keys.
+    Order 2 exchanges the first and the last field of every group of equal-shaped fields (all other fields stay):
+    the values then fit the storage of the field whose place they take."""
+    keys = list(keys)
+    if order == 0:
+        return keys
+    if order == 1:
+        return keys[::-1]
+    if order == 2:
+        groups = {}
+        for j, sh in enumerate(shapes if shapes is not None else [()] * len(keys)):
+            groups.setdefault(tuple(sh), []).append(j)
+        out = list(keys)
+        for js in groups.values():
+            out[js[0]], out[js[-1]] = keys[js[-1]], keys[js[0]]
+        return out
+    raise AssertionError(order)
+
+
+class SpelledProfile(Profile):
+    """A Profile whose add_sample arguments can be spelled the way the model chooses (spec/Ring.tla AddAs):
+    value form of the documented-float fields, integral (half=0) or fractional (half=1) values, keyword order.
+    The profile remembers what was passed for every id, and a stored / sampled row of that id must equal exactly
+    those values cast to the documented storage dtype.  Without spelled calls it behaves like the base profile."""
+
+    def __init__(self, base):
+        super().__init__(base.name, base.keys, base.dtypes, base.shapes, base.weak)
+        self.fed = {}
+
+    def encode_as(self, i, form="float", half=0, order=0):
+        """Keyword arguments (in the order the call site writes them) for transition id i."""
+        if form not in VALUE_FORMS or (half and form != "float"):
+            raise AssertionError((form, half))
+        vals = self.encode(i)
+        for k, dt, sh in zip(self.keys, self.dtypes, self.shapes):
+            if np.dtype(dt).kind != "f":
+                continue  # integer / bool fields: always Python ints
+            if form == "float":
+                if half:
+                    vals[k] = (np.asarray(vals[k], dtype=np.float64) + 0.5) if sh else float(vals[k]) + 0.5
+                continue
+            v = i % 2 if k in self.weak else i
+            if form == "pyint":
+                vals[k] = np.full(sh, v, dtype=np.int64).tolist()  # int, or nested lists of ints
+            elif form == "npint":
+                vals[k] = np.full(sh, v, dtype=np.int64) if sh else np.int64(v)
+            elif form == "npuint8":
+                vals[k] = np.full(sh, v, dtype=np.uint8) if sh else np.uint8(v)
+            elif form == "jaxint":
+                import jax.numpy as jnp
+
+                vals[k] = jnp.full(sh, v, dtype=jnp.int32)
+        self.fed[int(i)] = {k: np.array(np.asarray(vals[k])) for k in self.keys}
+        return {k: vals[k] for k in key_order(self.keys, order, self.shapes)}
+
+    def stored(self, i):
+        if i in self.fed:
+            return {k: self.fed[i][k].astype(dt) for k, dt in zip(self.keys, self.dtypes)}
+        return super().stored(i)
+
+
+def spelled(profile):
+    return profile if isinstance(profile, SpelledProfile) else SpelledProfile(profile)
+
+
 class StubRng:
     """Stands in for numpy.random.Generator; answers from a script and records
     how it was asked, so that the *range* the buffer samples from is observable."""
